@@ -52,6 +52,20 @@ def validRs (rs : List (List Lossy.Relation)) : Bool := rs.all fun e => !e.isEmp
 def ValidRs (rs : List (List Lossy.Relation)) : Prop := validRs rs = true
 instance (rs : List (List Lossy.Relation)) : Decidable (ValidRs rs) := by unfold ValidRs; exact inferInstance
 
+/-- the strong variant: moreover an architecture list, when present, is non-empty (Policy; the
+    lossless setters and `RelationBuilder` treat an empty list as "no list", so `Some([])` does not
+    survive the conversion to the lossless form) — the domain of the conversion clauses of C14 and of
+    the constructors' layout of C11 -/
+def validRS (r : Lossy.Relation) : Bool :=
+  validR r && (match r.architectures with | some as => !as.isEmpty | none => true)
+
+def ValidRS (r : Lossy.Relation) : Prop := validRS r = true
+instance (r : Lossy.Relation) : Decidable (ValidRS r) := by unfold ValidRS; exact inferInstance
+
+def validRSs (rs : List (List Lossy.Relation)) : Bool := rs.all fun e => !e.isEmpty && e.all validRS
+def ValidRSs (rs : List (List Lossy.Relation)) : Prop := validRSs rs = true
+instance (rs : List (List Lossy.Relation)) : Decidable (ValidRSs rs) := by unfold ValidRSs; exact inferInstance
+
 def sp : Gap := [.ws [' ']]
 
 /-- gaps of the canonical layout inside a bracket: none before the first term, one space before
